@@ -278,3 +278,29 @@ def sfgs_pack_unpack(H, _):
     H.check("midi_roundtrip", r._object.receive_sync_midi == p.receive_sync_midi)
     H.check("other_roundtrip", r._object.receive_sync_other == p.receive_sync_other)
     H.cover("reached")
+
+
+@contract("note_and_pattern_constructors_accept_the_whole_domain", ["C12"],
+          targets=["rv.note:Note.__init__ (attrs validators)", "rv.lib.validators:in_range", "rv.pattern:Pattern.__init__ (attrs validators)"])
+def note_and_pattern_constructors_accept_the_whole_domain(H, _):
+    """Every in-domain field value - including the upper ends vel 129 and 0xFFFF for module / ctl / val -
+    can be given to Note(...), reads back, and encodes to the 8 documented bytes; a pattern may have the
+    documented maximum of 32 tracks."""
+    from rv.note import NOTECMD, Note
+    from spec import format as F
+
+    vel = H.int("vel", 0, 129)
+    module = H.int("module", 0, 0xFFFF)
+    ctl = H.int("ctl", 0, 0xFFFF)
+    val = H.int("val", 0, 0xFFFF)
+    exc, n = H.raises(H.call, Note, note=NOTECMD.C4, vel=vel, module=module, ctl=ctl, val=val)
+    H.check("in_domain_note_is_accepted", exc is None)
+    if exc is None:
+        H.check("fields_read_back", H.eq((n.vel, n.module, n.ctl, n.val), (vel, module, ctl, val)))
+        H.check("encodes_to_documented_bytes", H.eq(H.getattr(n, "raw_data"), F.enc_note(NOTECMD.C4.value, vel, module, ctl, val)))
+    for v, m_, c, x in ((129, 0xFFFF, 0xFFFF, 0xFFFF), (0, 0, 0, 0)):
+        e, _n = H.raises(H.call, Note, vel=v, module=m_, ctl=c, val=x)
+        H.check("boundary_note_is_accepted", e is None)
+    e, pat = H.raises(H.call, Pattern, lines=4, tracks=32)
+    H.check("thirty_two_tracks_accepted", e is None and pat is not None and pat.tracks == 32)
+    H.cover("reached")
